@@ -82,11 +82,16 @@ pub fn gen_cfg(r: &mut Rng, rg: &Regime) -> GenCfg {
     let prec = *r.pick(rg.precs);
     let k = *r.pick(rg.ks);
     let inc = k * 10u128.pow(prec);
-    let convs: Vec<String> = (0..r.below(3)).map(|i| format!("conv{}", i)).collect();
+    let mut convs: Vec<String> = (0..r.below(3)).map(|i| format!("conv{}", i)).collect();
+    if r.chance(8) {
+        // the contract base may also be listed as convertible: asks in it are still plain
+        let at = r.below(convs.len() as u64 + 1) as usize;
+        convs.insert(at, "base".to_string());
+    }
     let quotes: Vec<String> = (0..1 + r.below(2)).map(|i| format!("q{}", i)).collect();
     let pool: Vec<String> = POOL[..rg.pool.min(POOL.len())].iter().map(|s| s.to_string()).collect();
     let mut markers = vec![];
-    for d in convs.iter().chain(quotes.iter()).chain(std::iter::once(&"base".to_string())) {
+    for d in convs.iter().filter(|c| c.as_str() != "base").chain(quotes.iter()).chain(std::iter::once(&"base".to_string())) {
         markers.push((d.clone(), *r.pick(&[MarkerKind::NoMarker, MarkerKind::Coin, MarkerKind::Restricted])));
     }
     let mut approvers: Vec<String> = (0..1 + r.below(2)).map(|_| r.pick(&pool).clone()).collect();
